@@ -429,3 +429,7 @@ for _f, _id in ((dtab_node_update, "C09.DTAB-node-update"), (dtab_run, "C09.DTAB
     _f.rule_id = _id
 
 RULES = [dtab_node_update, dtab_run, wmc_handlers, guard_inuse, sign_unsub, sign_count]
+
+# control signature of the bookkeeping effects this property depends on (rules/ctrlsig.py)
+from .ctrlsig import make_rule as _ctrl_rule  # noqa: E402
+RULES.append(_ctrl_rule("C09"))
